@@ -26,7 +26,8 @@ SPEC = {
              'Non-trivial = budget with a supplemental source, a tag-only rule that matches before a categorizing one, or a merchant: property; '
              'distinct by digest'),
     'exhaustive': {'quick': False, 'thorough': False},
-    'required_counters': ['cli_runs', 'explain_merchant_checks', 'discover_checks', 'description_probe_checks'],
+    'required_counters': ['cli_runs', 'explain_merchant_checks', 'discover_checks', 'description_probe_checks', 'legacy_csv_description_probes',
+                          'budgets_with_merchant_fed_by_several_rules'],
     'assumptions': ['description probes use rule files free of date / source / field conditions (explain cannot be given those)',
                     'discover totals are compared only when every Unknown transaction is positive (discover sums absolute values, up nets them)'],
 }
@@ -91,6 +92,19 @@ def mech_for_probe(rf, desc, amount, mode):
 
 def judge(rec, rnd, tmp, k):
     b = B.gen_budget(rnd, rules=rnd.choice(['rules', 'rules', 'csv']))
+    if b['rules_kind'] == 'rules' and rnd.random() < .5:
+        # one merchant name fed by several rules with different categories (an amount-conditioned rule plus a plain one is the usual shape):
+        # what up and explain report for that merchant depends on the order in which they feed the transactions to the analysis
+        cats = [r for r in b['rf'].rules if r.category]
+        for r in rnd.sample(cats, min(len(cats), rnd.randint(2, 3))):
+            r.merchant = 'Shared Merchant'
+        if rnd.random() < .7:
+            w = rnd.choice(['S0', 'S0', 'S1', 'NETFLIX', 'COSTCO'])
+            pos = rnd.randint(0, len(b['rf'].rules))
+            b['rf'].rules.insert(pos, R.Rule('Shared plain', 'contains("%s")' % w, 'Shopping', 'Wholesale', merchant='Shared Merchant'))
+            b['rf'].rules.insert(pos, R.Rule('Shared small', 'contains("%s") and amount < %s' % (w, rnd.choice(['20', '100', '1000'])), 'Transport', 'Fuel',
+                                             merchant='Shared Merchant'))
+        rec.count('budgets_with_merchant_fed_by_several_rules')
     root = os.path.join(tmp, 'b%d' % k)
     os.makedirs(root)
     cfg = B.write_budget(b, root)
@@ -106,7 +120,9 @@ def judge(rec, rnd, tmp, k):
     if supp or (b['rules_kind'] == 'rules' and any(r.merchant for r in b['rf'].rules)):
         rec.interesting(core.digest(case))
     # ---- explain per merchant
-    for m in rnd.sample(U['merchants'], min(4, len(U['merchants']))):
+    picked = rnd.sample(U['merchants'], min(4, len(U['merchants'])))
+    picked += [m for m in U['merchants'] if m['name'] == 'Shared Merchant' and m not in picked]
+    for m in picked:
         pe = B.tally(root, 'explain', m['name'], cfg, '--format', 'json')
         rec.count('cli_runs')
         rec.count('explain_merchant_checks')
@@ -183,6 +199,60 @@ def judge(rec, rnd, tmp, k):
     shutil.rmtree(root, ignore_errors=True)
 
 
+CSV_PROBES = [('GROSSMARKT', 'Gro\u00dfmarkt Berlin'), ('FINANCE', '\ufb01nance Co 12'), ('STRASSE', 'Hauptstra\u00dfe 5 Caf\u00e9'), ('CAF\u00c9', 'caf\u00e9 luna'),
+              ('UBER\\s*EATS', 'uber   eats 42'), ('NETFLIX', 'netflix.com'), ('M\u00dcLLER', 'm\u00fcller drogerie'), ('^SQ \\*', 'sq *coffee'), ('ZZZ', 'nothing here')]
+
+
+def judge_probe_csv(rec, rnd, tmp, k):
+    """explain "<description>" on a legacy merchant_categories.csv budget versus up on a sibling budget that contains the description."""
+    picks = rnd.sample(CSV_PROBES, 4)
+    rows = 'Pattern,Merchant,Category,Subcategory,Tags\n' + ''.join('%s,M%d %s,Cat%d,Sub%d,%s\n' % (p, i, 'Shop', i, i, rnd.choice(['', 'a', 'a|b'])) for i, (p, _) in enumerate(picks))
+    desc = rnd.choice(picks + [rnd.choice(CSV_PROBES)])[1]
+    amount = rnd.choice([5.0, 15.0, 150.0])
+    root = os.path.join(tmp, 'pc%d' % k)
+    settings = {'year': 2025, 'data_sources': [{'name': 'Main', 'file': 'data/main.csv', 'format': '{date:%Y-%m-%d},{description},{amount}'}]}
+    for sub in ('a', 'b'):
+        os.makedirs(os.path.join(root, sub, 'config'))
+        os.makedirs(os.path.join(root, sub, 'data'))
+        with open(os.path.join(root, sub, 'config', 'settings.yaml'), 'w') as f:
+            yaml.safe_dump(settings, f, sort_keys=False)
+        with open(os.path.join(root, sub, 'config', 'merchant_categories.csv'), 'w', encoding='utf-8') as f:
+            f.write(rows)
+        with open(os.path.join(root, sub, 'data', 'main.csv'), 'w', encoding='utf-8') as f:
+            f.write('Date,Description,Amount\n2025-01-05,EXISTING VENDOR ONE,12.00\n' + ('2025-01-15,"%s",%.2f\n' % (desc, amount) if sub == 'b' else ''))
+    case = {'kind': 'probe-csv', 'rules': rows, 'desc': desc, 'amount': amount}
+    rec.case()
+    pu, U = up_json(os.path.join(root, 'b'), os.path.join(root, 'b', 'config'))
+    pe = B.tally(os.path.join(root, 'a'), 'explain', desc, os.path.join(root, 'a', 'config'), '--amount', str(amount), '--format', 'json')
+    rec.count('cli_runs', 2)
+    try:
+        if U is None:
+            return
+        mu = [m for m in U['merchants'] if desc in (m.get('raw_descriptions') or {})]
+        if len(mu) != 1:
+            return
+        mu = mu[0]
+        rec.count('description_probe_checks')
+        rec.count('legacy_csv_description_probes')
+        try:
+            T = json.loads(pe.stdout[pe.stdout.index('{'):])
+        except Exception:
+            T = None
+        if T is None:
+            if mu['category'] != 'Unknown':
+                rec.violation('explain-description-csv:no-answer', f'explain {desc!r} gave no JSON (exit {pe.returncode}, {pe.stderr[-150:]!r}); up assigns '
+                              f'{(mu["name"], mu["category"], mu["subcategory"])}', case)
+            return
+        want = (mu['name'], mu['category'], mu['subcategory'])
+        got = (T.get('merchant'), T.get('category'), T.get('subcategory'))
+        if got != want:
+            rec.violation('explain-description-csv:differs', f'legacy CSV rules: explain {desc!r} --amount {amount}: {got}; up assigns {want}', case)
+        if mu['category'] != 'Unknown':
+            rec.interesting(['probe-csv', core.digest(case)])
+    finally:
+        shutil.rmtree(root, ignore_errors=True)
+
+
 def judge_probe(rec, rnd, tmp, k):
     rf = probe_rulefile(rnd)
     mode = rnd.choice(['first_match', 'first_match', 'most_specific'])
@@ -246,6 +316,7 @@ def run(rec, shard, nshards, t):
             judge(rec, rnd, tmp, k)
             for j in range(3):
                 judge_probe(rec, rnd, tmp, k * 10 + j)
+            judge_probe_csv(rec, rnd, tmp, k)
         if shard == 0:
             rec.sample({'probe_rules': R.render(probe_rulefile(rnd))[:500]})
     finally:
@@ -261,5 +332,6 @@ def replay(rec, case):
             judge(rec, rnd, tmp, k)
             for j in range(3):
                 judge_probe(rec, rnd, tmp, k * 10 + j)
+            judge_probe_csv(rec, rnd, tmp, k)
     finally:
         shutil.rmtree(tmp, ignore_errors=True)
